@@ -12,7 +12,7 @@
     [inc_end m g n] / [hh_end g n] = n lies on an included / on an H-H bond, [charge_changed a] = the two charges in typesGH differ.
     Theorems 13-17: the RadiusExpand helpers. *)
 From Coq Require Import List NArith ZArith Bool.
-From SK Require Import lib.LGraph lib.C01_GraphLemmas model.C01_Model model.C01_Opts model.C02_Model model.C02_Store model.C02_Api proof.C02_Store proof.C02_StoreCtx proof.C02_StoreEquiv proof.C02_Api proof.C02_Proof proof.C02_Opts proof.C02_OptsEquiv proof.C02_Ctx proof.C02_Lre proof.C02_LreTrace proof.C02_Sides proof.C02_Sides2 proof.C02_CtxEquiv proof.C02_CtxCentre proof.C02_CtxNest.
+From SK Require Import lib.LGraph lib.C01_GraphLemmas model.C01_Model model.C01_Opts model.C02_Model model.C02_Store model.C02_Api proof.C02_Store proof.C02_StoreCtx proof.C02_StoreEquiv proof.C02_Api proof.C02_Proof proof.C02_Opts proof.C02_OptsEquiv proof.C02_Ctx proof.C02_Lre proof.C02_LreTrace proof.C02_Sides proof.C02_Sides2 proof.C02_CtxEquiv proof.C02_CtxCentre proof.C02_CtxNest model.C01_String proof.C01_StringEH proof.C02_ExplicitH.
 (* [extract_k_S] in section 28 is the definition of model/C02_Store.v (proof/C02_Proof.v has a lemma of that name) *)
 From SK Require Import model.C02_Store.
 Import ListNotations.
@@ -536,3 +536,43 @@ Theorem C02_rcS_equivariant : forall f : N -> N, (forall a b, f a = f b -> a = b
   get_rc_S K d m (relabel f g) = relabel f (get_rc_S K d m g).
 Proof. exact rcS_equivariant. Qed.
 Print Assumptions C02_rcS_equivariant.
+
+Theorem C02_ball_sub_equivariant : forall f : N -> N, (forall a b, f a = f b -> a = b) ->
+  forall (A B : Type) (g : lgraph A B) (seeds : list N) (k : nat),
+  ball_sub (relabel f g) (map f seeds) k = relabel f (ball_sub g seeds k).
+Proof. exact (fun f Hinj A B => @ball_sub_equivariant f Hinj A B). Qed.
+Print Assumptions C02_ball_sub_equivariant.
+
+Theorem C02_ctxS_equivariant : forall f : N -> N, (forall a b, f a = f b -> a = b) -> forall (g : sits) (k : nat), wf g ->
+  extract_k_S (relabel f g) k = relabel f (extract_k_S g k).
+Proof. exact ctxS_equivariant. Qed.
+Print Assumptions C02_ctxS_equivariant.
+
+Theorem C02_unequalS_sub_centre : forall K d m (g : sits), wf g ->
+  forall n, In n (unequal_nodes_g g) -> In n (node_ids (get_rc_S K d m g)).
+Proof. exact unequalS_sub_centre. Qed.
+Print Assumptions C02_unequalS_sub_centre.
+
+(** 32. rsmi_to_its(core=True, explicit_hydrogen=True) = get_rc of the explicit-hydrogen ITS ([h_to_explicit_its]: C01's model of
+        h_to_explicit(its=True), compared with the code by C01 and, composed with get_rc, by the wrap-core-eh cases here).
+        Making hydrogens explicit does not change the bonds of the centre, provided no hydrogen ATOM carries implicit hydrogens
+        on both sides (witness: without it a new H-H bond enters the centre); the centre atoms are the same and keep their labels
+        up to the hydrogen counts that h_to_explicit takes out of typesGH ([hx_upd]). *)
+Theorem C02_explicit_h_bonds : forall I : its, wf I ->
+  (forall n a, label I n = Some a -> i_el a = EL_H -> hx_count a <= 0) ->
+  forall u v e, adj (get_rc (fst (h_to_explicit_its I))) u v = Some e <-> adj (get_rc I) u v = Some e.
+Proof. exact rc_explicit_h_bonds. Qed.
+Print Assumptions C02_explicit_h_bonds.
+
+Theorem C02_explicit_h_atoms : forall I : its, wf I ->
+  (forall n a, label I n = Some a -> i_el a = EL_H -> hx_count a <= 0) ->
+  forall n b, label (get_rc (fst (h_to_explicit_its I))) n = Some b <->
+              exists a, label I n = Some a /\ b = rc_attr (hx_upd a) /\ exists v e, adj (get_rc I) n v = Some e.
+Proof. exact rc_explicit_h_atoms. Qed.
+Print Assumptions C02_explicit_h_atoms.
+
+Theorem C02_explicit_h_needs_hypothesis :
+  wf hh_implicit /\ gedges (get_rc hh_implicit) = [] /\
+  gedges (get_rc (fst (h_to_explicit_its hh_implicit))) = [(1%N, 2%N, IE 2 2 0)].
+Proof. exact rc_explicit_h_needs_hypothesis. Qed.
+Print Assumptions C02_explicit_h_needs_hypothesis.
